@@ -164,6 +164,9 @@ func runC07(rc *RunCtx) {
 		// a long history of other exchanges on the same client comes first (some clients of slow devices: every reply
 		// of the history takes a few milliseconds); every response handed out stays what it was
 		slow := rc.Scen.Chance(1, 3)
+		if slow && sc.ReadTimeout < 250*time.Millisecond {
+			sc.ReadTimeout = 250 * time.Millisecond
+		}
 		hist := genHistory(rc, sc, historyLen(rc.Scen), slow)
 		calls := append(append([]*C1(nil), hist...), sc)
 		first := RunC1Long(rc, chainCalls(calls))
